@@ -93,13 +93,15 @@ async fn jump(d: Duration) {
     tokio::time::resume();
     tokio::time::sleep(Duration::from_millis(60)).await;
 }
+/// creating an absent resource must succeed (C10): when a scenario's own set-up create fails, that is a witness, not a harness error
+fn c10(what: &'static str) -> impl Fn(tonic::Status) -> Fail { move |e| Fail { prop: "C10", what: format!("{} failed with {:?}", what, e.code()) } }
 fn setup<E: std::fmt::Debug>(what: &'static str) -> impl Fn(E) -> Fail { move |e| Fail { prop: "SETUP", what: format!("{}: {:?}", what, e) } }
 
 /// C15: size limit across the i32 -> u16 conversion; empty only with return_immediately; blocked pulls are released
 async fn s_pull_limits(h: &mut Host) -> Result<(), Fail> {
     let (t, s) = ("projects/p/topics/lim", "projects/p/subscriptions/lim");
-    h.topic(t).await.map_err(setup("topic"))?;
-    h.sub(s, t, 0, None).await.map_err(setup("sub"))?;
+    h.topic(t).await.map_err(c10("CreateTopic of an absent, well-formed name"))?;
+    h.sub(s, t, 0, None).await.map_err(c10("CreateSubscription of an absent name on an existing topic of the same project"))?;
     for max in [1i32, 2, 65535, 65536, 65537, 131072, i32::MAX] {
         h.publish(t, (0..3).map(|i| (vec![i], HashMap::new())).collect()).await.map_err(setup("publish"))?;
         let mut got = 0usize;
@@ -138,8 +140,8 @@ async fn s_pull_limits(h: &mut Host) -> Result<(), Fail> {
 /// C02 / C05 / C17: batches are parsed as a whole before anything is applied; unknown ids are ignored
 async fn s_batches(h: &mut Host) -> Result<(), Fail> {
     let (t, s) = ("projects/p/topics/b", "projects/p/subscriptions/b");
-    h.topic(t).await.map_err(setup("topic"))?;
-    h.sub(s, t, 0, None).await.map_err(setup("sub"))?;
+    h.topic(t).await.map_err(c10("CreateTopic of an absent, well-formed name"))?;
+    h.sub(s, t, 0, None).await.map_err(c10("CreateSubscription of an absent name on an existing topic of the same project"))?;
     h.publish(t, (0..2).map(|i| (vec![i], HashMap::new())).collect()).await.map_err(setup("publish"))?;
     let m = h.pull(s, 10, true).await.map_err(setup("pull"))?;
     if m.len() != 2 { return Err(f("SETUP", "expected 2 messages".into())); }
@@ -164,8 +166,8 @@ async fn s_batches(h: &mut Host) -> Result<(), Fail> {
 /// C05: a deadline extension sent inside a StreamingPull counts from the moment it is received
 async fn s_stream_modack(h: &mut Host) -> Result<(), Fail> {
     let (t, s) = ("projects/p/topics/st", "projects/p/subscriptions/st");
-    h.topic(t).await.map_err(setup("topic"))?;
-    h.sub(s, t, 0, None).await.map_err(setup("sub"))?;
+    h.topic(t).await.map_err(c10("CreateTopic of an absent, well-formed name"))?;
+    h.sub(s, t, 0, None).await.map_err(c10("CreateSubscription of an absent name on an existing topic of the same project"))?;
     let (tx, mut rx) = tokio::sync::mpsc::channel::<StreamingPullRequest>(16);
     let first = StreamingPullRequest { subscription: s.to_string(), ack_ids: vec![], modify_deadline_seconds: vec![], modify_deadline_ack_ids: vec![], stream_ack_deadline_seconds: 0, client_id: "c".into(), max_outstanding_messages: 100, max_outstanding_bytes: 100_000_000 };
     let mut inbound = h.subscriber.streaming_pull(async_stream::stream! { yield first; while let Some(r) = rx.recv().await { yield r; } }).await.map_err(setup("streaming_pull"))?.into_inner();
@@ -225,7 +227,7 @@ async fn s_namespace(h: &mut Host) -> Result<(), Fail> {
     }
     // C04 through the API: a subscription created with 3 s still waits the 10 s minimum
     let name = "projects/p/subscriptions/floor";
-    h.sub(name, t, 3, None).await.map_err(setup("sub"))?;
+    h.sub(name, t, 3, None).await.map_err(c10("CreateSubscription of an absent name on an existing topic of the same project"))?;
     h.publish(t, vec![(vec![7], HashMap::new())]).await.map_err(setup("publish"))?;
     if h.pull(name, 1, true).await.map_err(setup("pull"))?.len() != 1 { return Err(f("SETUP", "no message".into())); }
     jump(Duration::from_secs(8)).await;
@@ -244,8 +246,8 @@ async fn s_namespace(h: &mut Host) -> Result<(), Fail> {
 /// C17: malformed fields give INVALID_ARGUMENT, never a broken connection; the server keeps serving
 async fn s_malformed(h: &mut Host) -> Result<(), Fail> {
     let t = "projects/p/topics/mf";
-    h.topic(t).await.map_err(setup("topic"))?;
-    h.sub("projects/p/subscriptions/mf", t, 0, None).await.map_err(setup("sub"))?;
+    h.topic(t).await.map_err(c10("CreateTopic of an absent, well-formed name"))?;
+    h.sub("projects/p/subscriptions/mf", t, 0, None).await.map_err(c10("CreateSubscription of an absent name on an existing topic of the same project"))?;
     for bad in ["", "nope", "projects/p", "projects//topics/x", "projects/p/topics/", "projects\u{e9}p/topics/abcdefgh", "projects/p/tobics/abcdef", "projects/p/subscriptions/mf", "projects/p/topics////"] {
         expect_code(h.publisher.get_topic(GetTopicRequest { topic: bad.into() }).await, Code::InvalidArgument, "C17", &format!("GetTopic({:?})", bad))?;
         expect_code(h.publish(bad, vec![(vec![1], HashMap::new())]).await, Code::InvalidArgument, "C17", &format!("Publish({:?})", bad))?;
@@ -282,14 +284,14 @@ async fn s_lists_and_content(h: &mut Host) -> Result<(), Fail> {
     let mut topics = Vec::new();
     for i in 0..5 {
         let other = format!("projects/q/topics/l{}", i);
-        h.topic(&other).await.map_err(setup("topic"))?;
+        h.topic(&other).await.map_err(c10("CreateTopic of an absent, well-formed name"))?;
         let n = format!("projects/lp/topics/l{}", i);
-        h.topic(&n).await.map_err(setup("topic"))?;
+        h.topic(&n).await.map_err(c10("CreateTopic of an absent, well-formed name"))?;
         topics.push(n);
     }
     let hub = topics[0].clone();
     let mut subs = Vec::new();
-    for i in 0..5 { let n = format!("projects/lp/subscriptions/l{}", i); h.sub(&n, &hub, 0, None).await.map_err(setup("sub"))?; subs.push(n); }
+    for i in 0..5 { let n = format!("projects/lp/subscriptions/l{}", i); h.sub(&n, &hub, 0, None).await.map_err(c10("CreateSubscription of an absent name on an existing topic of the same project"))?; subs.push(n); }
     for size in [1, 2, 5, 0, 1000] {
         let mut tok = String::new();
         let mut got = Vec::new();
@@ -349,8 +351,8 @@ async fn s_lists_and_content(h: &mut Host) -> Result<(), Fail> {
 /// each Pull takes one (max_messages = 1) - neither may stay parked while a message sits in the queue.
 async fn s_two_waiters(h: &mut Host) -> Result<(), Fail> {
     let (t, s) = ("projects/p/topics/tw", "projects/p/subscriptions/tw");
-    h.topic(t).await.map_err(setup("topic"))?;
-    h.sub(s, t, 0, None).await.map_err(setup("sub"))?;
+    h.topic(t).await.map_err(c10("CreateTopic of an absent, well-formed name"))?;
+    h.sub(s, t, 0, None).await.map_err(c10("CreateSubscription of an absent name on an existing topic of the same project"))?;
     let mut waiters = Vec::new();
     for _ in 0..2 {
         let mut c = h.subscriber.clone();
@@ -415,8 +417,8 @@ async fn s_push_content(h: &mut Host) -> Result<(), Fail> {
     use base64::Engine;
     let (t, s) = ("projects/p/topics/pc", "projects/p/subscriptions/pc");
     let (url, mut rx) = push_endpoint().await?;
-    h.topic(t).await.map_err(setup("topic"))?;
-    h.sub(s, t, 0, Some(&url)).await.map_err(setup("push sub"))?;
+    h.topic(t).await.map_err(c10("CreateTopic of an absent, well-formed name"))?;
+    h.sub(s, t, 0, Some(&url)).await.map_err(c10("CreateSubscription (push) of an absent name on an existing topic"))?;
     let attrs: HashMap<String, String> = [("k".to_string(), "v".to_string()), ("k\u{e9}".to_string(), "\u{1F600}".to_string())].into_iter().collect();
     let payloads: Vec<(Vec<u8>, HashMap<String, String>)> = vec![
         (b"Hello".to_vec(), HashMap::new()),
@@ -454,7 +456,7 @@ async fn s_push_content(h: &mut Host) -> Result<(), Fail> {
 /// C13 through the RPC surface with enough resources that page tokens take many different values
 async fn s_long_walk(h: &mut Host) -> Result<(), Fail> {
     let mut topics = Vec::new();
-    for i in 0..300 { let n = format!("projects/lw/topics/t{}", i); h.topic(&n).await.map_err(setup("topic"))?; topics.push(n); }
+    for i in 0..300 { let n = format!("projects/lw/topics/t{}", i); h.topic(&n).await.map_err(c10("CreateTopic of an absent, well-formed name"))?; topics.push(n); }
     for size in [1, 7, 250] {
         let mut tok = String::new();
         let mut got = Vec::new();
@@ -476,8 +478,8 @@ async fn s_long_walk(h: &mut Host) -> Result<(), Fail> {
 /// C15 (streaming limit) and C17 (inconsistent control messages) on an open StreamingPull
 async fn s_stream_limits(h: &mut Host) -> Result<(), Fail> {
     let (t, s) = ("projects/p/topics/sl", "projects/p/subscriptions/sl");
-    h.topic(t).await.map_err(setup("topic"))?;
-    h.sub(s, t, 0, None).await.map_err(setup("sub"))?;
+    h.topic(t).await.map_err(c10("CreateTopic of an absent, well-formed name"))?;
+    h.sub(s, t, 0, None).await.map_err(c10("CreateSubscription of an absent name on an existing topic of the same project"))?;
     h.publish(t, (0..5).map(|i| (vec![i], HashMap::new())).collect()).await.map_err(setup("publish"))?;
     let open = |max: i64| StreamingPullRequest { subscription: s.to_string(), ack_ids: vec![], modify_deadline_seconds: vec![], modify_deadline_ack_ids: vec![], stream_ack_deadline_seconds: 0, client_id: "c".into(), max_outstanding_messages: max, max_outstanding_bytes: 100_000_000 };
     // out-of-range limits are rejected
